@@ -394,3 +394,101 @@ func c45BuiltSeeds(p *keyPool) (keyrings, detached, messages [][]byte, doc []byt
 	}
 	return
 }
+
+// ------------------------------------------------------------------ key packets of every algorithm
+
+// keyMaterial is the algorithm-specific part of a public-key packet body taken
+// from a real key, so that it parses for the algorithm it belongs to.
+type keyMaterial struct {
+	name  string
+	tail  []byte  // bytes after the algorithm octet
+	owner *sigKey // key whose secret can sign for it
+}
+
+var c45KeyAlgos = []byte{1, 2, 3, 16, 17, 18, 19, 22, 20, 99}
+
+func c45Materials(p *keyPool) []keyMaterial {
+	keys, _ := c45SigKeys(p)
+	by := map[string]*sigKey{}
+	for _, k := range keys {
+		by[k.name] = k
+	}
+	var out []keyMaterial
+	if k := by["rsa"]; k != nil {
+		out = append(out, keyMaterial{"rsa", k.body[6:], k})
+	}
+	if k := by["dsa"]; k != nil {
+		out = append(out, keyMaterial{"dsa", k.body[6:], k})
+		if k.sub != nil {
+			out = append(out, keyMaterial{"elgamal", k.sub[6:], k})
+		}
+	}
+	if k := by["ecs"]; k != nil {
+		out = append(out, keyMaterial{"ec-p256", k.body[6:], k})
+		out = append(out, keyMaterial{"ec-p256+kdf", append(append([]byte{}, k.body[6:]...), 3, 1, 8, 7), k})
+	}
+	return out
+}
+
+// shapedEntity: a key packet (tag 6/14/5/7, version 4 or 3) with the given
+// algorithm octet over the given material, a user id and a self-signature made
+// with the material owner's secret over the packet as built (correct hash tag
+// and issuer for that body).
+func shapedEntity(m keyMaterial, algo byte, version, tag int, rndSeed uint64) []byte {
+	body := []byte{byte(version), 0x65, 0, 0, 1}
+	if version < 4 {
+		body = append(body, 0, 0)
+	}
+	body = append(body, algo)
+	body = append(body, m.tail...)
+	pub := body
+	if tag == 5 || tag == 7 {
+		sec := refpgp.MPI([]byte{0x12, 0x34, 0x56})
+		var sum uint16
+		for _, b := range sec {
+			sum += uint16(b)
+		}
+		body = append(append(append(append([]byte{}, body...), 0), sec...), byte(sum>>8), byte(sum))
+	}
+	out := refpgp.BuildPacket(tag, body, refpgp.LenNew2, nil)
+	if tag == 14 || tag == 7 {
+		return out // a stray subkey packet
+	}
+	k := &sigKey{name: "shaped", algo: m.owner.algo, body: pub, keyID: keyIDOf(pub), signer: m.owner.signer, order: m.owner.order, prime: m.owner.prime}
+	uid := []byte("shaped <shaped@example.org>")
+	out = append(out, refpgp.BuildPacket(13, uid, refpgp.LenNew1, nil)...)
+	sp := &sigSpec{version: 4, sigType: 0x13, hashID: 10, mpiMode: "valid", tagOK: true, issuer: "unhashed"}
+	return append(out, buildSig(k, sp, append(keyHashData(pub), uidHashData(uid)...), &bytesReader{drbg(rndSeed)})...)
+}
+
+// shapedRing places the shaped entity first, in the middle or at the end of a
+// ring of two ordinary keys.
+func shapedRing(p *keyPool, shaped []byte, pos int) []byte {
+	a, _ := dearmor(p.byName["rsa"].pubArm)
+	b, _ := dearmor(p.byName["ecs"].pubArm)
+	switch pos {
+	case 0:
+		return bytes.Join([][]byte{shaped, a, b}, nil)
+	case 1:
+		return bytes.Join([][]byte{a, shaped, b}, nil)
+	default:
+		return bytes.Join([][]byte{a, b, shaped}, nil)
+	}
+}
+
+// c45BuiltKeyRing draws one ring with a shaped key; binary or armored.
+func c45BuiltKeyRing(rt *rapid.T, p *keyPool) (target int, data []byte, desc string) {
+	mats := c45Materials(p)
+	m := mats[rapid.IntRange(0, len(mats)-1).Draw(rt, "kmat")]
+	algo := rapid.SampledFrom(c45KeyAlgos).Draw(rt, "kalgo2")
+	version := rapid.SampledFrom([]int{4, 4, 4, 3, 2, 5}).Draw(rt, "kver2")
+	tag := rapid.SampledFrom([]int{6, 6, 6, 14, 5, 7}).Draw(rt, "ktag2")
+	pos := rapid.IntRange(0, 2).Draw(rt, "kpos")
+	data = shapedRing(p, shapedEntity(m, algo, version, tag, rapid.Uint64().Draw(rt, "krnd")), pos)
+	desc = fmt.Sprintf("built-ring:%s-material/algo%d/v%d/tag%d/pos%d", m.name, algo, version, tag, pos)
+	if rapid.IntRange(0, 2).Draw(rt, "karm") == 0 {
+		typ := rapid.SampledFrom([]string{"PGP PUBLIC KEY BLOCK", "PGP PRIVATE KEY BLOCK"}).Draw(rt, "karmtype")
+		return c45ArmoredKeyring, refpgp.EncodeArmor(typ, nil, data, 64, "\n", true), desc + "/armored"
+	}
+	return c45Keyring, data, desc
+}
